@@ -146,6 +146,39 @@ pub fn case_strategy() -> BoxedStrategy<Case> {
         .prop_map(|(stdin, schema, flags, pep440, prefix)| Case { stdin, schema, flags, pep440, prefix })
         .boxed()
 }
+/// C01 judges validity only, so timestamps may leave the range the rendering model covers:
+/// years >= 10000 (strftime prints "+10000"), beyond chrono's range, beyond i64
+pub fn wide_timestamp() -> BoxedStrategy<u64> {
+    prop_oneof![
+        3 => 253402300800u64..8210266876799,
+        1 => 8210266876799u64..9_000_000_000_000_000_000,
+        1 => gens::pick(&[253402300800u64, 253402300799, 8210266876799, 8210266876800, 9223372036854775807, 9223372036854775808, u64::MAX]),
+    ]
+    .boxed()
+}
+pub fn case_strategy_wide() -> BoxedStrategy<Case> {
+    (case_strategy(), proptest::option::weighted(0.25, (wide_timestamp(), wide_timestamp(), any::<bool>())))
+        .prop_map(|(mut c, w)| {
+            if let Some((t1, t2, via_flag)) = w {
+                if let Some(z) = &mut c.stdin {
+                    z.vars.bumped_timestamp = Some(t1);
+                    z.vars.last_timestamp = Some(t2);
+                    // something that prints the year
+                    z.schema.build.push(MComp::Var(MVar::Ts("YYYY".into())));
+                }
+                if via_flag || c.stdin.is_none() {
+                    c.flags.retain(|f| f.name != "bumped-timestamp");
+                    c.flags.push(Flag::v("bumped-timestamp", t1));
+                }
+                if let SchemaSel::Ron(s) = &mut c.schema {
+                    s.extra_core.push(MComp::Var(MVar::Ts("compact_date".into())));
+                    s.build.push(MComp::Var(MVar::Ts("YYYY".into())));
+                }
+            }
+            c
+        })
+        .boxed()
+}
 
 fn argv_ok(c: &Case) -> bool {
     argv(c).iter().all(|a| proc::argv_safe(a))
@@ -206,7 +239,25 @@ fn check_git(c: &GitCase, cx: &mut Cx) -> Res {
     check_body(line, c.pep440, !matches!(c.schema, SchemaSel::Ron(_)))
 }
 
+#[derive(Debug, Clone, Hash, Serialize, Deserialize)]
+pub struct FlowCase {
+    pub c: crate::props::c04::Case,
+    pub pep440: bool,
+}
+fn check_flow(f: &FlowCase, cx: &mut Cx) -> Res {
+    let (mut a, stdin) = crate::props::c04::build_argv(&f.c);
+    a.retain(|x| !x.starts_with("--output-format"));
+    a.push(format!("--output-format={}", if f.pep440 { "pep440" } else { "semver" }));
+    let run = cli::flow(&a, stdin.as_deref());
+    cx.label_if(run.is_ok(), "succeeded");
+    let Some(out) = run.ok() else { return Ok(()) };
+    cx.nt_if(f.c.branch.as_ref().is_some_and(|b| b.chars().any(|ch| !ch.is_ascii_alphanumeric())));
+    cx.note(|| format!("flow {a:?} -> {out}"));
+    check_body(out, f.pep440, true)
+}
+
 pub fn property() -> Property {
+    let flow = RandomSub::<FlowCase>::new("flow-valid", (40_000, 600_000), |_| (crate::props::c04::case_strategy(), any::<bool>()).prop_map(|(c, pep440)| FlowCase { c, pep440 }).boxed(), check_flow).floor(0.2);
     let git = RandomSub::<GitCase>::new(
         "git-source",
         (80, 1_200),
@@ -218,7 +269,7 @@ pub fn property() -> Property {
         check_git,
     )
     .shrink_iters(60);
-    let l1 = RandomSub::<Case>::new("render-valid", (150_000, 2_500_000), |_| case_strategy(), check_l1).floor(0.2);
+    let l1 = RandomSub::<Case>::new("render-valid", (150_000, 2_500_000), |_| case_strategy_wide(), check_l1).floor(0.2);
     let l2 = RandomSub::<Case>::new(
         "cli-one-line",
         (1_500, 20_000),
@@ -264,12 +315,12 @@ pub fn property() -> Property {
     .floor(0.1);
     Property {
         id: "C01",
-        rule: "cases = (source none|stdin object, schema: default | one of the 22 presets | generated valid --schema-ron, random VCS/override/bump/index flags, output format, optional prefix); vars carry nasty Unicode text in branch/hash/custom/literal positions and boundary numbers. Oracle on every successful run: prefix + one line; body accepted by the independent SemVer recogniser resp. equal to its own PEP 440 normal form per the independent normaliser; ASCII; zerv's own parser and `check` accept it; for preset schemas re-rendering in the same format is the identity. Non-trivial = run succeeded and a free-text position (branch, hash, custom value, str() literal) contained a character outside [A-Za-z0-9], or the body has >=10 digits; distinct = distinct cases.",
+        rule: "cases = (source none|stdin object, schema: default | one of the 22 presets | generated valid --schema-ron, random VCS/override/bump/index flags, output format, optional prefix); vars carry nasty Unicode text in branch/hash/custom/literal positions and boundary numbers. flow-valid: `zerv flow` runs from the C04 generator (tags, nasty branch names, rule sets, options) in both formats. Oracle on every successful run: prefix + one line; body accepted by the independent SemVer recogniser resp. equal to its own PEP 440 normal form per the independent normaliser; ASCII; zerv's own parser and `check` accept it; for preset schemas re-rendering in the same format is the identity. Non-trivial = run succeeded and a free-text position (branch, hash, custom value, str() literal) contained a character outside [A-Za-z0-9], or the body has >=10 digits; distinct = distinct cases.",
         assumptions: vec![
             "only successful runs are judged here (failures: C13)",
             "git-source: real repositories whose branch names need sanitising (Unicode, @, +, digits-only, leading zeros), version and flow, through the real binary",
         ],
-        subs: vec![l1.boxed(), l2.boxed(), git.boxed()],
+        subs: vec![l1.boxed(), flow.boxed(), l2.boxed(), git.boxed()],
         known_repro: vec![(
             "F16",
             "render-valid",
